@@ -22,6 +22,7 @@ def statusOf : Err → Status
   | .lenRange => .err "length out of range"
   | .panic => .err "panic"
   | .other w => .err w
+  | .src => .err "source error"
 
 def lastStat (rs : List (ByteArray × RStat)) : RStat := (rs.getLast?.map (·.2)).getD .ok
 
@@ -189,7 +190,7 @@ end Helpers
 /-- T1. NewReader fails exactly when the batch reader reports an open error -/
 theorem newReader_ok_iff (cfgCap : Nat) (inp : ByteArray) :
     (newReader cfgCap inp).toOption.isSome = !(Lzma1.read (effCap cfgCap) inp).openError := by
-  unfold newReader Lzma1.read effCap
+  unfold newReader newReaderE Lzma1.read effCap
   by_cases c1 : inp.size < 13
   · rw [if_pos c1, if_pos c1]; rfl
   rw [if_neg c1, if_neg c1]
